@@ -371,10 +371,15 @@ func genCodecHarnesses(c *CheckCtx, prop string) error {
 		{"Varint_SpecTable", "verifVarintSpecTable", "C12"},
 		{"List", "verifList", "C11 C12 C14"}, {"List_DecodeSpecBytes", "verifListDecodeSpec", "C12"},
 		{"Map", "verifMap", "C11 C12 C14"}, {"Tuple", "verifTuple", "C11 C12 C14"}, {"Udt", "verifUdt", "C11 C12 C14"},
-		// multiplyExact(x, 1000) and floorDiv/floorMod by 1000 / 86400 (verifMathMultiplyExact1000, verifMathFloor*) are
-		// written but not registered: their 64-bit multiply/divide queries come back unknown after 300 s in this
-		// encoding (a hand-written one-shot query for the same function takes 9 s / 85 s), see DESIGN 0.6
-		{"math_addExact", "verifMathAddExact", "C11 C13"},
+		// floorDiv/floorMod by 1000 / 86400 (verifMathFloor*) are written but not registered: their 64-bit
+		// multiply/divide/remainder equivalence query comes back unknown after 300 s (85 s one-shot on an idle machine)
+		{"math_addExact", "verifMathAddExact", "C11 C13"}, {"math_multiplyExact_by1000", "verifMathMultiplyExact1000", "C11 C13"},
+	}
+	if os.Getenv("GOSYM_EXPERIMENTAL") != "" {
+		scalars = append(scalars, struct {
+			name, fn string
+			props    string
+		}{"math_floorDivMod_by1000", "verifMathFloor1000", "C13"})
 	}
 	for _, sc := range scalars {
 		if wrappers && strings.Contains(sc.props, prop) {
